@@ -84,7 +84,7 @@ func init() {
 				slots++
 			}
 		}
-		if slots == 0 {
+		if slots == 0 && !sk.MayBeDropped {
 			// The fixtures are known to carry the reference string on the unchanged tree, so this
 			// is templ's doing: reported as a violation of that sink, not as harness trouble.
 			brokenRefs[sk.Name] = fmt.Sprintf("the benign reference string %q does not arrive as one text run / attribute value: output %q", Mark, out)
